@@ -1,7 +1,7 @@
 // C04 correspondence harness (1/2): the real compute_shortest_distances_matrix, both overloads, built twice
 // (default TAPKEE_USE_PRIORITY_QUEUE and -DTAPKEE_USE_FIBONACCI_HEAP), run under several OMP_NUM_THREADS.
 //
-// in : geo [heap=pq|fib] N=4 lists=1,2;2,3;3,0;0,1 w=0,1,4,2;... [lm=2,0]
+// in : geo [heap=pq|fib] N=4 lists=1,2;2,3;3,0;0,1 w=0,1,4,2;... [lm=2,0] [idx=7,3,9,5  (values of the index vector)]
 // out: F=<N rows> L=<rows>          (rows ';'-separated, entries ','-separated exact numbers, dblmax = not reached)
 #include <tapkee/defines.hpp>
 #include <tapkee/utils/logging.hpp>
@@ -15,10 +15,9 @@ static std::string run_geo(std::map<std::string, std::string>& f)
         return std::string("wrong-build:") + BUILD;
     IndexType N = std::stoi(f["N"]);
     Neighbors nb = parse_lists(f["lists"]);
-    DenseMatrix W = parse_matrix(f["w"]);
-    std::vector<IndexType> idx(N);
-    for (IndexType i = 0; i < N; i++)
-        idx[i] = i;
+    DenseMatrix Wpos = parse_matrix(f["w"]);
+    std::vector<IndexType> idx = parse_idx(f, N);
+    DenseMatrix W = by_value(Wpos, idx);
     matrix_distance cb{&W};
     std::ostringstream o;
     DenseSymmetricMatrix F = compute_shortest_distances_matrix(idx.begin(), idx.end(), nb, cb);
